@@ -136,6 +136,15 @@ fn run_scene(case: &Value, idx: usize, rng: &mut Rng) -> Value {
     let _ = w0;
     let (ox, oy) = if shift { (2.0f64, 0.5f64) } else { (0.0, 0.0) };
     let wpos = fr.g([-ox / U, 0.0, -oy / U]);
+    // the same outline may carry corners that turn nothing (where a partition meets the facade): in a quarter of the poses
+    // the first side is listed with its midpoint, in another quarter the last side
+    let mut polygon = vec![point![ox as f32, oy as f32], point![(ox + 80.0 * U) as f32, oy as f32], point![(ox + 80.0 * U) as f32, (oy + 60.0 * U) as f32], point![ox as f32, (oy + 60.0 * U) as f32]];
+    let redundant = (idx / 7) % 4;
+    if redundant == 1 {
+        polygon.insert(1, point![(ox + 40.0 * U) as f32, oy as f32]);
+    } else if redundant == 2 {
+        polygon.push(point![ox as f32, (oy + 30.0 * U) as f32]);
+    }
     let wall = wall_of(
         "W",
         if idx % 5 == 4 { BoundaryType::ADIABATIC } else { BoundaryType::EXTERIOR },
@@ -143,7 +152,7 @@ fn run_scene(case: &Value, idx: usize, rng: &mut Rng) -> Value {
             tilt: if roof { 0.0 } else { 90.0 },
             azimuth: fr.theta_deg() as f32,
             position: Some(point![wpos[0] as f32, wpos[1] as f32, wpos[2] as f32]),
-            polygon: vec![point![ox as f32, oy as f32], point![(ox + 80.0 * U) as f32, oy as f32], point![(ox + 80.0 * U) as f32, (oy + 60.0 * U) as f32], point![ox as f32, (oy + 60.0 * U) as f32]],
+            polygon,
         },
     );
     let w = &sc["win"];
@@ -209,7 +218,7 @@ fn run_scene(case: &Value, idx: usize, rng: &mut Rng) -> Value {
     };
     let x25 = sl as f64 * 25.0;
     json!({"ev": "Scene", "sc": sc, "ok": ok, "panic": panic, "got25": if x25.is_finite() { x25.round() as i64 } else { -1 },
-        "exact": x25.is_finite() && (x25 - x25.round()).abs() < 1e-3, "nrays": n, "rot": rot, "roof": roof, "nfar": nfar, "ghost": ghost, "kinds": kinds, "shift": shift})
+        "exact": x25.is_finite() && (x25 - x25.round()).abs() < 1e-3, "nrays": n, "rot": rot, "roof": roof, "nfar": nfar, "ghost": ghost, "kinds": kinds, "shift": shift, "redundant": redundant})
 }
 
 // ------------------------------------------------------------------------------------------------ parts B and C
